@@ -141,6 +141,10 @@ package method_evaluator
 //@   # row of the call and the enclosing method/class (whatever kind of method token it is)
 //@   ensures[C24] ctx.round == "check" ==> mapwrites(base.MethodCallPoint) == 1 && mapwrites(base.MethodCalleePoint) == 1
 //@   ensures[C24] ctx.round != "check" ==> mapwrites(base.MethodCallPoint) == 0 && mapwrites(base.MethodCalleePoint) == 0
+//@   # C11: every call starts with no method resolved by an earlier, unrelated call (the block
+//@   # parameter types of strategies that resolve nothing themselves - union receivers, Hash#merge,
+//@   # push/concat, Kernel - must not be taken from whatever the previous statement called)
+//@   ensures[C11] p.lastResolvedMethodT == nil
 //@   # the call's row is the row of the last token read that is not a newline (ErrorRow, see the
 //@   # parser's row accounting), not the reader's row, which is already one further when the call
 //@   # is the last thing on its line
